@@ -83,6 +83,8 @@ class TVCheck:
                 kinds = {v["obligation"].split(":")[0] for v in r.violations}
                 if r.status in self.bad_statuses:
                     kinds.add("status:" + r.status)
+                if r.status == "raised" and self.raised_is_violation and "optional" not in prog.tags:
+                    kinds.add("status:raised")
                 if r.status in self.bad_statuses and f.get("detail_regex") and not _re.search(f["detail_regex"], r.detail or ""):
                     continue
                 if kinds and kinds <= explained:
